@@ -723,6 +723,8 @@ def lod_join_key_only(run):
     gen = ((a, b, rk) for rk in ("k", "k2", "k2 as list") for a in keyed_lists(ml_) for b in rights(rk.split()[0]))
     for a, b, rk in run.inputs(gen):
         by = "k" if rk == "k" else ("k", "k2") if rk == "k2" else ["k", "k2"]       # a (left, right) pair may be given as a list
+        if rk == "k2 as list":
+            a = [dict(x, k2=70 + i) for i, x in enumerate(a)]      # the left items have an entry of their own named like the right key: it stays
         rk = rk.split()[0]
 
         def first(i):
@@ -742,7 +744,9 @@ def lod_join_key_only(run):
                 ok = ok and plain(mk(a).anti_join(Bl, by)) == [a[i] for i in range(len(a)) if m[i] is None]
                 ok = ok and plain(Bl) == b
                 full = plain(mk(a).full_join(mk(b), by))       # must answer for every form of the key pair
-                if not any("p" in y for y in b):               # (which side wins a colliding non-key name in a full join is not specified)
+                if not any("p" in y for y in b) and not any(rk != "k" and rk in x for x in a):
+                    # (which side wins a colliding name in a full join - a payload name on both sides, a left entry named like the right key -
+                    # is not specified: only the one-directional joins are checked on those inputs)
                     ok = ok and all(any(g.get("p") == x["p"] and g.get("k") == x["k"] for g in full) for x in a)
                     for y in b:      # every right item at least once (its key value under the left or the right name)
                         ok = ok and any((g.get("k", g.get(rk)) == y[rk] or g.get(rk) == y[rk]) and all(g.get(kk) == vv for kk, vv in y.items() if kk != rk)
